@@ -154,3 +154,105 @@ def progress_values(rng, lengths=None):
             if l == l:
                 qs.append(l / d)
     return qs
+
+
+# ---- helpers on observations (used by generators to aim L at the natural length, and by known()) ----
+
+def parse_curve_obs(out):
+    """'ok p=N x:y ... l=M b ...' -> (path [(x,y)], lengths [float]) or None"""
+    toks = out.split()
+    if len(toks) < 3 or toks[0] != "ok" or not toks[1].startswith("p="):
+        return None
+    n = int(toks[1][2:])
+    path = []
+    for t in toks[2:2 + n]:
+        xs, ys = t.split(":")
+        path.append((float("nan") if xs == "nan" else from_bits32(xs), float("nan") if ys == "nan" else from_bits32(ys)))
+    m = int(toks[2 + n][2:])
+    lens = [float("nan") if t == "nan" else from_bits64(t) for t in toks[3 + n:3 + n + m]]
+    return path, lens
+
+
+def seg_len32_is_zero(a, b):
+    """does `(b - a).length()` evaluate to 0 in f32 arithmetic (equal points, or squares that underflow)?"""
+    dx, dy = f32(b[0] - a[0]), f32(b[1] - a[1])
+    return f32(f32(dx * dx) + f32(dy * dy)) == 0.0
+
+
+def request_parts(line):
+    """(cmd, mode, Ltok, [pt tokens], [progress tokens])"""
+    toks = line.split()
+    rest = toks[3:]
+    if "@" in rest:
+        k = rest.index("@")
+        return toks[0], toks[1], toks[2], rest[:k], rest[k + 1:]
+    return toks[0], toks[1], toks[2], rest, []
+
+
+def nan_cut_predicate(line, run_impl):
+    """F11: the end point was re-projected along a natural path segment whose f32 length is 0 (division by zero in
+    `normalize`): the adjusted path's last point is non-finite, all earlier ones are a prefix of the natural path, and
+    the natural segment at that index has zero computed length."""
+    cmd, mode, ltok, pts, _ = request_parts(line)
+    if ltok == "-":
+        return False
+    outs = run_impl([f"curve {mode} {ltok} " + " ".join(pts), f"curve {mode} - " + " ".join(pts)])
+    adj, nat = parse_curve_obs(outs[0]), parse_curve_obs(outs[1])
+    if not adj or not nat or len(adj[0]) < 2:
+        return False
+    k = len(adj[0]) - 1
+    last = adj[0][k]
+    if last[0] == last[0] and last[1] == last[1] and abs(last[0]) != float("inf") and abs(last[1]) != float("inf"):
+        return False
+    if k >= len(nat[0]):
+        return False
+    return seg_len32_is_zero(nat[0][k - 1], nat[0][k])
+
+
+def natural_dists(run_impl, items):
+    """items: [(mode, points)] -> natural dist per item (None when unavailable)"""
+    lines = [curve_line("curve", m, None, pts) for m, pts in items]
+    outs = run_impl(lines)
+    res = []
+    for o in outs:
+        obs = parse_curve_obs(o)
+        res.append(obs[1][-1] if obs and obs[1] else None)
+    return res
+
+
+def len_classes_nat(rng, nat):
+    """the requested-length classes of the C16 quantifier around the curve's natural length `nat`."""
+    out = [("none", None), ("tiny", 1e-3), ("zero", 0.0), ("neg", -rng.uniform(0.1, 50.0)), ("nan", float("nan")),
+           ("inf", float("inf")), ("huge", 1e6)]
+    if nat is not None and nat == nat and 0 < nat < 1e30:
+        out += [("inside", nat * rng.uniform(0.02, 0.98)), ("beyond", nat * rng.uniform(1.001, 3.0)),
+                ("exact", nat), ("exact+1e-16", nat + 1e-16 if nat + 1e-16 != nat else next_up(nat)),
+                ("exact-1e-16", nat - 1e-16 if nat - 1e-16 != nat else next_up(nat, -1)),
+                ("exact+ulp", next_up(nat)), ("just-inside", nat * (1 - 1e-9))]
+    else:
+        out += [("beyond", rng.uniform(0.5, 300.0))]
+    return out
+
+
+def cut_overshoot_predicate(line, run_impl):
+    """F12: osu! mode, Catmull: the cut falls into a simplified segment whose booked length (difference of its cumulative
+    lengths, which includes the removed detail) exceeds its chord, and the cut point is placed at distance L - len_k from p_k
+    along the chord's direction, beyond the segment's end."""
+    import math
+    cmd, mode, ltok, pts, _ = request_parts(line)
+    if ltok == "-" or mode != "0" or not any(p.endswith(":C") for p in pts):
+        return False
+    outs = run_impl([f"curve {mode} {ltok} " + " ".join(pts), f"curve {mode} - " + " ".join(pts)])
+    adj, nat = parse_curve_obs(outs[0]), parse_curve_obs(outs[1])
+    if not adj or not nat or len(adj[0]) < 2 or len(adj[0]) > len(nat[0]):
+        return False
+    L = from_bits64(ltok)
+    k = len(adj[0]) - 1
+    a, b, q = nat[0][k - 1], nat[0][k], adj[0][k]
+    chord = math.hypot(b[0] - a[0], b[1] - a[1])
+    booked = nat[1][k] - nat[1][k - 1]
+    placed = L - nat[1][k - 1]
+    if not (L <= nat[1][-1] and booked > chord and placed > chord):
+        return False
+    got = math.hypot(q[0] - a[0], q[1] - a[1])
+    return abs(got - placed) <= 1e-4 * (1 + abs(placed)) + 1e-5 * max(1.0, max(abs(c) for p in nat[0] for c in p))
